@@ -134,6 +134,7 @@ inductive GOp where
   | base (o : Op)                                               -- a step of Model/Persist
   | gcRun (old : Nat) (gx : Nat → Option Val → Option Val)      -- one tryRunGC(old)
   | blockWait                                                   -- AddBlock with a flush during its back-pressure wait
+  | blockWaitRC                                                 -- … on a node whose MPT counts references (leaky, see below)
 
 /-- AddBlock of the next block while the persisting routine flushes: storeBlock (blockchain.go:2032-2229) computes
 the block into two PRIVATE layers (`aerCache`: tip pointer, block, transactions, AERs, transfer logs; `cache`: contract
@@ -147,6 +148,24 @@ def blockWait (H : Hist) (B : Nat) (n : Node) : Node × Option Batch :=
   let s3 := step H B s2.1 .block
   (s3.1, s2.2)
 
+/-- `blockWait` as the code behaves on a node whose MPT counts references (RemoveUntraceableBlocks /
+KeepOnlyLatestState): Trie.updateRefCount (mpt/trie.go:460-483) rewrites the active flag / counter of a stored node IN
+PLACE in the slice it got from the store - for a node that still sits in the shared write cache that is bc.dao's own
+copy. So AddMPTBatch of the waiting block releases the nodes of the previous state inside bc.dao BEFORE the block is
+merged, and the flush during the wait carries them. In this model's granularity (`Key.trie h` = the nodes of the state
+trie of height h) the trie of the current height is then not loadable from that batch (`none`), when it was still in
+the write cache. Known finding rcwait-continue-addblock. -/
+def blockWaitRC (H : Hist) (B : Nat) (n : Node) : Node × Option Batch :=
+  let n1 := (step H B n (.headers (n.height + 1))).1
+  let leak : Writes := if n1.cache.any (fun p => decide (p.1 = Key.trie n.height)) then [(Key.trie n.height, none)] else []
+  let s2 := step H B { n1 with cache := n1.cache ++ leak } .flush
+  let s3 := step H B s2.1 .block
+  (s3.1, s2.2)
+
+def GOp.leaky : GOp → Bool
+  | .blockWaitRC => true
+  | _ => false
+
 /-- the header writes AddBlock issues before storeBlock when the header of the next block is new. -/
 def waitHeaderWrites (B : Nat) (n : Node) : Writes :=
   if n.height + 1 ≤ n.hdrHeight then []
@@ -156,6 +175,7 @@ def gstep (H : Hist) (B : Nat) (cfg : GcCfg) (g : GNode) : GOp → GNode × List
   | .base o => let s := step H B g.n o; ({ g with n := s.1 }, s.2.toList)
   | .gcRun old gx => gcRun H B cfg g old gx
   | .blockWait => let s := blockWait H B g.n; ({ g with n := s.1 }, s.2.toList)
+  | .blockWaitRC => let s := blockWaitRC H B g.n; ({ g with n := s.1 }, s.2.toList)
 
 def grunFrom (H : Hist) (B : Nat) (cfg : GcCfg) : GNode → List GOp → GNode × List Batch
   | g, [] => (g, [])
